@@ -24,6 +24,7 @@ var Rigs = map[string]sim.Rig{
 	"C17b": {Name: "site", Run: runSite("C17")},
 	"C17l": {Name: "listener", Run: runListenerLimits},
 	"C17": {Name: "limits", Run: runC17},
+	"C04": {Name: "relay", Run: runRelay},
 	"C08": {Name: "loadfail", Run: runLoadfail, NoBubble: true},
 }
 
